@@ -41,7 +41,7 @@ def describe(tier):
         'rename_gate(every node -> fresh label), replace_inputs(every assignment of {keep,True,False} to the inputs; also after the input order was changed by set_inputs / rename), '
         'remove_gate(every node), replace_subcircuit(every pair of disjoint node sets I (|I|<=2, 3 when n+k<=4) and O (|O|<=2) x '
         'replacement in {fresh copy of the slice, canonical mux-tree re-synthesis, copy with double negation} x boundary labels '
-        '{kept, fresh}). Oracle: reference truth tables positionally, netlist model of rename / cofactor, well-formedness; '
+        '{kept, fresh}); slices whose cone reaches an unmapped primary input must be rejected; for n+k<=3 everything again on copy.deepcopy / pickle copies of the circuit. Oracle: reference truth tables positionally, netlist model of rename / cofactor, well-formedness; '
         'for replace_subcircuit: unchanged table + well-formed, or a CircuitError. distinct = distinct (operation, outcome).',
         'bounds': {'quick': 'F(1,<=2), F(2,<=2), F(3,1); replace_subcircuit additionally on F(2,3,{NOT,AND,XOR}) (last-gate output, copy and double-negation replacements)', 'thorough': '+ F(2,3), F(3,2), F(1,3) (outputs (last),(last,x0),())'}[tier],
         'exhaustive': True,
@@ -60,12 +60,24 @@ def probe():
 
 def check_rename(n, gates, outs, blk, acc, net, ref):
     labs = list(net.gates)
+    import copy
+
     for l in labs:
-        for new in ('zz_' + l, 'A0'):
+        for new in ('zz_' + l, 'A0', 'A0+sibling'):
+            # '+sibling': a copy.copy of the circuit had the same gate renamed first (to another label)
+            sibling = new.endswith('+sibling')
+            new = new.split('+')[0]
             acc.transitions += 1
             acc.traces += 1
-            case = lambda: {**space.spec_json(n, gates, outs), 'block': blk, 'op': ['rename_gate', l, new]}  # noqa: E731
+            case = lambda: {**space.spec_json(n, gates, outs), 'block': blk, 'op': ['rename_gate', l, new] + (['after the same gate was renamed in a copy.copy of the circuit'] if sibling else [])}  # noqa: E731
             c = _build(n, gates, outs, blk)
+            if sibling:
+                try:
+                    sib = copy.copy(c)
+                    sib.rename_gate(l, 'sib_' + l)
+                except Exception as e:  # noqa: BLE001
+                    acc.violation(f'rename_gate/raises-{type(e).__name__}', case, 'on the copy: ' + repr(e))
+                    continue
             try:  # query before mutating: remembered results would have to be invalidated
                 c.get_gates_truth_table()
                 c.get_truth_table()
@@ -108,6 +120,8 @@ def check_rename(n, gates, outs, blk, acc, net, ref):
 def check_replace_inputs(n, gates, outs, blk, acc, net, ref):
     rows = 1 << n
     _check_replace_inputs_reordered(n, gates, outs, blk, acc, net, ref)
+    if n:
+        _check_replace_inputs_live(n, gates, outs, blk, acc, net, ref)
     for assign in itertools.product((None, True, False), repeat=n):
         if all(a is None for a in assign):
             continue
@@ -160,6 +174,35 @@ def check_replace_inputs(n, gates, outs, blk, acc, net, ref):
         if ok and [refmodel.tt_from_rows(r_) for r_ in tt] != want:
             acc.violation('replace_inputs/library-evaluation', case, '')
         acc.outcome('op', ('replace_inputs', len(to_true), len(to_false)))
+
+
+def _check_replace_inputs_live(n, gates, outs, blk, acc, net, ref):
+    """The caller passes the circuit's own input list: every input must be fixed."""
+    for val in (True, False):
+        acc.transitions += 1
+        acc.traces += 1
+        case = lambda: {**space.spec_json(n, gates, outs), 'block': blk, 'op': ['replace_inputs(circuit.inputs)', val]}  # noqa: E731
+        c = _build(n, gates, outs, blk)
+        try:
+            if val:
+                c.replace_inputs(c.inputs, [])
+            else:
+                c.replace_inputs([], c.inputs)
+        except Exception as e:  # noqa: BLE001
+            acc.violation(f'replace_inputs/raises-{type(e).__name__}', case, repr(e))
+            continue
+        if list(c.inputs):
+            acc.violation('replace_inputs/remaining-inputs', case, f'{c.inputs} expected []')
+            continue
+        row = (1 << n) - 1 if val else 0
+        want = [(ref[o] >> row) & 1 for o in net.outputs]
+        try:
+            got = [int(v) for v in c.evaluate([])]
+        except Exception as e:  # noqa: BLE001
+            acc.violation('replace_inputs/result-not-evaluable', case, repr(e))
+            continue
+        if got != want:
+            acc.violation('replace_inputs/not-the-cofactor', case, f'got {got} expected {want}')
 
 
 def _check_replace_inputs_reordered(n, gates, outs, blk, acc, net, ref):
@@ -374,6 +417,7 @@ def check_replace_subcircuit(n, gates, outs, blk, acc, net, ref, only=None, tags
                     sl = slice_of(net, set(I), O)
                     if sl is None:
                         acc.count('slice_not_cut_bounded')
+                        _check_unbounded_slice(n, gates, outs, blk, acc, net, I, O)
                         continue
                     for tag, sub, imap, omap in replacements(net, I, O, sl):
                         if only is not None and only != [list(I), list(O), tag]:
@@ -422,6 +466,41 @@ def check_replace_subcircuit(n, gates, outs, blk, acc, net, ref, only=None, tags
                         acc.outcome('op', ('replace_subcircuit', 'ok', tag))
 
 
+def _check_unbounded_slice(n, gates, outs, blk, acc, net, I, O):
+    """The cone of O reaches a primary input that is not in I, but only vacuously, so that a replacement over I
+    alone IS functionally equivalent: the call either raises a documented error (CreateBlockError) or keeps
+    the whole circuit's table - in particular it never quietly swallows that input."""
+    from cirbo.core.circuit.exceptions import CircuitError
+
+    if len(O) != 1 or len(I) > 1:
+        return
+    o = O[0]
+    if o in net.inputs:
+        return
+    # the property speaks about functionally equivalent replacements only: the cone's dependence on the
+    # inputs outside I must be vacuous (GT(x,x), XOR(x,x), AND(y, OR(y,x)) ...)
+    tabs = net.tables()
+    if tabs[o] != (tabs[I[0]] if I else 0):
+        return
+    acc.count('unbounded_slice_with_equivalent_replacement')
+    acc.transitions += 1
+    case = lambda: {**space.spec_json(n, gates, outs), 'block': blk, 'I': list(I), 'O': list(O), 'replacement': 'buffer-of-first-input'}  # noqa: E731
+    c = _build(n, gates, outs, blk)
+    # replacement: output = buffer of the (single) mapped input, or a constant when I is empty
+    gl = [[i, 'INPUT', []] for i in I] + [[o, 'IFF', [I[0]]] if I else [o, 'ALWAYS_FALSE', []]]
+    sub = refmodel.Net.from_json({'inputs': list(I), 'outputs': [o], 'gates': gl, 'blocks': {}})
+    try:
+        c.replace_subcircuit(space.build_from_net(sub), {i: i for i in I}, {o: o})
+    except CircuitError:
+        return
+    except Exception as e:  # noqa: BLE001
+        acc.violation(f'replace_subcircuit/raises-{type(e).__name__}', case, repr(e))
+        return
+    got = refmodel.abstract(c)
+    if len(got.inputs) != n:
+        acc.violation('replace_subcircuit/accepts-slice-that-is-not-cut-bounded-and-drops-an-input', case, f'inputs now {got.inputs}')
+
+
 def _blocks_of(n, gates, blk):
     if not blk or not gates:
         return {}
@@ -432,7 +511,17 @@ def _blocks_of(n, gates, blk):
     return {'K': ([], [last], [last])}
 
 
+OBJECT_VARIANT = [None]  # None | 'deepcopy' | 'pickle': which Python object the operations are applied to
+
+
 def _build(n, gates, outs, blk):
+    c = _build0(n, gates, outs, blk)
+    if OBJECT_VARIANT[0] is not None:
+        c = dict(space.identity_variants(c))[OBJECT_VARIANT[0]]
+    return c
+
+
+def _build0(n, gates, outs, blk):
     c = space.build(n, gates, outs)
     if blk and gates:
         last = space.label(n, n + len(gates) - 1)
@@ -447,6 +536,7 @@ def _build(n, gates, outs, blk):
 def check_circuit(n, gates, acc, pol, rs_only=False, alpha=None):
     from vmc.props import c03
 
+    k = len(gates)
     if rs_only:
         outs = (n + len(gates) - 1,)
         net = space.spec_net(n, gates, outs)
@@ -470,6 +560,17 @@ def check_circuit(n, gates, acc, pol, rs_only=False, alpha=None):
             check_replace_inputs(n, gates, outs, blk, acc, net, ref)
             check_remove(n, gates, outs, blk, acc, net, ref)
             check_replace_subcircuit(n, gates, outs, blk, acc, net, ref)
+        if n + k <= 3:
+            # the same operations on copy.deepcopy / pickle copies of the circuit object
+            for variant in ('deepcopy', 'pickle'):
+                OBJECT_VARIANT[0] = variant
+                try:
+                    check_rename(n, gates, outs, True, acc, net, ref)
+                    check_replace_inputs(n, gates, outs, True, acc, net, ref)
+                    check_remove(n, gates, outs, True, acc, net, ref)
+                    check_replace_subcircuit(n, gates, outs, True, acc, net, ref)
+                finally:
+                    OBJECT_VARIANT[0] = None
     acc.sample({**space.spec_json(n, gates, pols[0]), 'block': True, 'I': ['x0'], 'O': [space.label(n, n + k - 1)], 'replacement': 'mux/fresh'})
 
 
@@ -491,6 +592,6 @@ def replay(case, acc):
     op = case.get('op', [''])[0]
     if op == 'rename_gate':
         return check_rename(n, gates, outs, blk, acc, net, ref)
-    if op == 'replace_inputs':
+    if op.startswith('replace_inputs'):
         return check_replace_inputs(n, gates, outs, blk, acc, net, ref)
     return check_remove(n, gates, outs, blk, acc, net, ref)
